@@ -3319,7 +3319,11 @@ class Parameters:
                 # dealing with object and it's been set on this object
                 value = cls_or_slf._param__private.values[name]
             else:
-                # dealing with class or isn't set on the object
+                # dealing with class or isn't set on the object: the default
+                # attribute access falls back to is the class Parameter's,
+                # not the one of a (possibly older) per-instance copy
+                if isinstance(cls_or_slf, Parameterized):
+                    param_obj = cls_or_slf.param.objects(instance=False).get(name, param_obj)
                 value = param_obj.default
 
         return value
